@@ -14,8 +14,12 @@ import fcntl, hashlib, json, os, random, re, shutil, subprocess, sys, time
 
 ROOT = os.environ.get("VERIF_ROOT") or os.path.dirname(os.path.dirname(os.path.abspath(__file__)))   # relocatable (private copies of sub-agents)
 LEAN = f"{ROOT}/lean"
-BUILD = f"{ROOT}/build"
-WORK = f"{ROOT}/work"
+# development-time relocation (parallel runs against scratch copies of the repository): the registered
+# commands never set these, so they work on /repo and write under /verif
+REPO = os.environ.get("VERIF_REPO") or "/repo"
+OUT = os.environ.get("VERIF_SCRATCH") or ROOT          # build/, work/, evidence/, replays/ live here
+BUILD = f"{OUT}/build"
+WORK = f"{OUT}/work"
 GOENV = dict(os.environ, GOFLAGS="-mod=mod", GOPROXY="off", GOSUMDB="off", GOTOOLCHAIN="local")
 ALLOWED_AXIOMS = {"propext", "Classical.choice", "Quot.sound"}
 TRUSTED_BASE = [
@@ -37,8 +41,8 @@ class Ctx:
         # nothing of an earlier run (in particular of a run on a modified tree) may be read by this one
         shutil.rmtree(self.work, ignore_errors=True)
         os.makedirs(self.work, exist_ok=True)
-        os.makedirs(f"{ROOT}/evidence", exist_ok=True)
-        os.makedirs(f"{ROOT}/replays/{pid}", exist_ok=True)
+        os.makedirs(f"{OUT}/evidence", exist_ok=True)
+        os.makedirs(f"{OUT}/replays/{pid}", exist_ok=True)
         self.violations = []       # (replay_path, no_input_found: bool)
         self.known = []            # printed KNOWN-FINDING lines
         self.cov = {"evaluations": 0, "samples": [], "streams": {}, "distribution": {}}
@@ -75,7 +79,14 @@ def build_harness(ctx, faketime=False):
     name = "harness_ft" if faketime else "harness"
     out = f"{BUILD}/{name}"
     with Lock("go"):
-        subprocess.run(["cp", "/repo/go.sum", f"{ROOT}/harness/go.sum"], check=False)
+        hdir = f"{ROOT}/harness"
+        if REPO != "/repo":
+            hdir = f"{OUT}/harness-src"
+            shutil.rmtree(hdir, ignore_errors=True)
+            shutil.copytree(f"{ROOT}/harness", hdir)
+            gm = open(f"{hdir}/go.mod").read().replace("=> /repo", "=> " + REPO)
+            open(f"{hdir}/go.mod", "w").write(gm)
+        subprocess.run(["cp", f"{REPO}/go.sum", f"{hdir}/go.sum"], check=False)
         env = dict(GOENV)
         tags = "verif"
         if faketime:
@@ -83,7 +94,7 @@ def build_harness(ctx, faketime=False):
             tags = "verif,faketime"
         if os.path.exists(out):
             os.remove(out)          # never run a stale binary
-        rc, so, se = sh(["go", "build", "-tags", tags, "-o", out, "."], cwd=f"{ROOT}/harness", env=env, timeout=1500)
+        rc, so, se = sh(["go", "build", "-tags", tags, "-o", out, "."], cwd=hdir, env=env, timeout=1500)
     if rc != 0:
         ctx.log("HARNESS BUILD FAILED\n" + se[-4000:])
         raise SystemExit(harness_error(ctx, "go build of the harness against /repo failed:\n" + se[-2000:]))
@@ -92,7 +103,7 @@ def build_harness(ctx, faketime=False):
 
 def harness_error(ctx, msg):
     """/repo does not build (or the harness is broken): not a verdict about the property."""
-    path = f"{ROOT}/replays/{ctx.pid}/build-failure.json"
+    path = f"{OUT}/replays/{ctx.pid}/build-failure.json"
     json.dump({"kind": "harness-build-failure", "message": msg}, open(path, "w"), indent=1)
     print(f"VIOLATION property={ctx.pid} replay={path} no-failing-input-found")
     write_evidence(ctx, extra={"build_failure": msg[-500:]})
@@ -221,7 +232,7 @@ def first_diff(g, m, n):
 def record_violation(ctx, kind, payload, no_input=False):
     blob = json.dumps(payload, sort_keys=True)
     h = hashlib.sha1(blob.encode()).hexdigest()[:12]
-    path = f"{ROOT}/replays/{ctx.pid}/{kind}-{h}.json"
+    path = f"{OUT}/replays/{ctx.pid}/{kind}-{h}.json"
     payload = dict(payload, kind=kind, property=ctx.pid, seed=ctx.seed, tier=ctx.tier)
     json.dump(payload, open(path, "w"), indent=1)
     ctx.violations.append((path, no_input))
@@ -408,7 +419,7 @@ def write_evidence(ctx, extra=None):
         "wall_s": round(time.time() - ctx.t0, 2),
         "violations": len(ctx.violations),
     }
-    json.dump(ev, open(f"{ROOT}/evidence/{ctx.pid}.json", "w"), indent=1)
+    json.dump(ev, open(f"{OUT}/evidence/{ctx.pid}.json", "w"), indent=1)
 
 
 def finish(ctx):
